@@ -43,6 +43,8 @@ type cmdCase struct {
 	ConnectTo bool   `json:"connectto"`
 	LAddr     bool   `json:"laddr"`
 	Prom      bool   `json:"prom"`
+	MaxConn   int    `json:"maxconn"`
+	Hosts     int    `json:"hosts"`
 }
 
 func (c cmdCase) valid() bool {
@@ -56,6 +58,9 @@ func (c cmdCase) valid() bool {
 		return false
 	}
 	if c.ConnectTo && c.Server != "plain" {
+		return false
+	}
+	if c.Hosts == 2 && !c.ConnectTo {
 		return false
 	}
 	return true
@@ -92,12 +97,15 @@ func (c cmdCase) pathOf(i int) string {
 
 // op builds the driver operation: flags and the files they name.
 func (c cmdCase) op(dir string) map[string]any {
-	base := "{{URL}}"
-	if c.ConnectTo {
-		base = "http://e2e.invalid:{{PORT}}"
-	}
 	var doc strings.Builder
 	for i := 1; i <= e2eK; i++ {
+		base := "{{URL}}"
+		if c.ConnectTo {
+			base = "http://E2E.invalid:{{PORT}}"
+			if c.Hosts == 2 && i%2 == 0 {
+				base = "http://E2Eb.invalid:{{PORT}}"
+			}
+		}
 		method, own := "GET", !c.slowList() && i == 2
 		if own {
 			method = "POST"
@@ -160,7 +168,13 @@ func (c cmdCase) op(dir string) map[string]any {
 		args = append(args, "-timeout", "50ms")
 	}
 	if c.ConnectTo {
-		args = append(args, "-connect-to", "e2e.invalid:{{PORT}}:{{ADDR}}")
+		args = append(args, "-connect-to", "E2E.invalid:{{PORT}}:{{ADDR}}")
+		if c.Hosts == 2 {
+			args = append(args, "-connect-to", "E2Eb.invalid:{{PORT}}:{{ADDR}}")
+		}
+	}
+	if c.MaxConn > 0 {
+		args = append(args, "-max-connections", strconv.Itoa(c.MaxConn))
 	}
 	if c.LAddr {
 		args = append(args, "-laddr", "127.0.0.2")
@@ -209,7 +223,7 @@ func TestDrv_E2E(t *testing.T) {
 			Bad: pick("none", "none", "none", "late"), Rate: []int{0, 50, 200}[r.Intn(3)], MaxW: []int{1, 3}[r.Intn(2)], Workers: []int{1, 3}[r.Intn(2)],
 			Name: pick("", "n"), Hdr: r.Intn(2) == 0, Body: r.Intn(2) == 0, Chunked: r.Intn(3) == 0, MaxBody: []int{-1, -1, 0, 2, 9}[r.Intn(5)],
 			Redirects: pick("default", "default", "nofollow"), KeepAlive: r.Intn(4) != 0, Timeout: pick("default", "default", "default", "short"),
-			ConnectTo: r.Intn(4) == 0, LAddr: r.Intn(4) == 0, Prom: r.Intn(4) == 0}
+			ConnectTo: r.Intn(3) == 0, LAddr: r.Intn(4) == 0, Prom: r.Intn(4) == 0, MaxConn: []int{0, 0, 1, 2}[r.Intn(4)], Hosts: 1 + r.Intn(2)}
 		if c.Server == "tls" {
 			c.Trust = pick("insecure", "rootcert", "none")
 		}
